@@ -72,6 +72,15 @@ class Lane(LaneBase):
     @staticmethod
     def scan_oracle(g, parse, where):
         bad = []
+
+        def twice(f):
+            """the caller changes the list it was given in place; what counts is what the next call answers"""
+            r = f()
+            if isinstance(r, list):
+                r.reverse()
+                del r[:1]
+                r.append(r[0] if r else None)
+            return f()
         try:
             nodes = g.get_nodes()
             recs = []
@@ -85,21 +94,21 @@ class Lane(LaneBase):
                 recs.append((n.identifier, v, l))
             lags = {l for _, _, l in recs}
             for l in lags | {0, 7}:
-                got = sorted(x.identifier for x in g.get_nodes_at_lag(l))
+                got = sorted(x.identifier for x in twice(lambda: g.get_nodes_at_lag(l)))
                 if got != sorted(i for i, _, k in recs if k == l):
                     bad.append(f'{where}: get_nodes_at_lag({l}) = {got} differs from the scan')
             vs = {v for _, v, _ in recs}
             for v in vs | {'nosuch'}:
-                got = sorted(x.identifier for x in g.get_nodes_for_variable_name(v))
+                got = sorted(x.identifier for x in twice(lambda: g.get_nodes_for_variable_name(v)))
                 if got != sorted(i for i, w, _ in recs if w == v):
                     bad.append(f'{where}: get_nodes_for_variable_name({v!r}) = {got} differs from the scan')
-            if (g.variables or []) != sorted(vs):
+            if (twice(lambda: g.variables) or []) != sorted(vs):
                 bad.append(f'{where}: variables = {g.variables} differs from the scan {sorted(vs)}')
-            if g.get_all_variable_names() != sorted(vs):
+            if twice(g.get_all_variable_names) != sorted(vs):
                 bad.append(f'{where}: get_all_variable_names() differs from the scan')
             for i, v, l in recs:
                 want = sorted(j for j, _, k in recs if k == l and j != i)
-                got = sorted(x.identifier for x in g.get_contemporaneous_nodes(i))
+                got = sorted(x.identifier for x in twice(lambda: g.get_contemporaneous_nodes(i)))
                 if got != want:
                     bad.append(f'{where}: get_contemporaneous_nodes({i!r}) differs from the scan')
                 got = sorted(x.identifier for x in g.get_contemporaneous_nodes(g.get_node(i)))
